@@ -243,7 +243,7 @@ static Profile profile(const std::string& name, bool T) {
         }
         p.runs = {{"", S_MEM, 0}}; p.depth_q = 3; p.depth_t = 4;
     } else if (name == "wellformed") {
-        p.alphabet = {"qr1", "qr1s3", "qr5s3", "qr0s1", "aec0s3", "mm1s3", "mm2s1", "wb", "rotx", "rotn", "addbp", "act1", "act0"};
+        p.alphabet = {"qr1", "qr1s3", "qr5s3", "qr0s1", "aec0s3", "mm0", "mm1s3", "mm2s1", "wb", "rotx", "rotn", "addbp", "act1", "act0"};
         p.cfgs.push_back({"m2", {PS(2, 1000000, 0), PS(1, 1000, 1, true)}, PS(3, 1000, 0, true)});
         p.cfgs.push_back({"m0", {PS(0, 1000000, 0, 2)}, PS(1, 1000, 0, 3)});   // collection parameters present but empty
         p.cfgs.push_back({"m10000_h4", {PS(10000, 1, 4), PS(2, 1, 2)}, PS(1, 1000, 0)});
